@@ -142,9 +142,23 @@ def run(ck):
         pre_env = {}
         for n in walk_body(f):
             from sa.astutil import less_than as _lt
-            lt_ = _lt(n.test, True) if isinstance(n, ast.If) and isinstance(n.test, ast.Compare) and len(n.test.ops) == 1 else None
-            # the overflow test: <bound derived from max_bound> < <tested quantity>  (any spelling)
-            if lt_ is None or "max_bound" not in norm(lt_[0]):
+            if not (isinstance(n, ast.If) and isinstance(n.test, ast.Compare) and len(n.test.ops) == 1):
+                continue
+            # the overflow test: <bound derived from max_bound> < <tested quantity>  (any spelling, either polarity: the overflow region is
+            # the arm taken when it holds - the body, or the else arm plus what follows a body that leaves the block)
+            lt_, over_region = _lt(n.test, True), None
+            if lt_ is not None and "max_bound" in norm(lt_[0]):
+                over_region = list(n.body)
+            else:
+                lt_ = _lt(n.test, False)
+                if lt_ is not None and "max_bound" in norm(lt_[0]):
+                    over_region = list(n.orelse)
+                    par0 = getattr(n, "_parent", None)
+                    for fld0 in ("body", "orelse", "finalbody"):
+                        sib0 = getattr(par0, fld0, None)
+                        if isinstance(sib0, list) and n in sib0 and n.body and isinstance(n.body[-1], (ast.Return, ast.Raise, ast.Continue, ast.Break)):
+                            over_region += sib0[sib0.index(n) + 1:]
+            if over_region is None or not over_region:
                 continue
             tested_node = lt_[1]
             # the tested quantity, with the locals defined before the test substituted
@@ -161,12 +175,12 @@ def run(ck):
                 y.id for y in ast.walk(x) if isinstance(y, ast.Name))) for x in ast.walk(lhs))
             if not multi:
                 continue
-            env = straightline_env(n.body, env0)
+            env = straightline_env(over_region, env0)
             span_guard = any(isinstance(t, ast.If) and {"x_min", "x_max"} <= set(y.id for y in ast.walk(t.test) if isinstance(y, ast.Name))
-                             for t in walk_local(ast.Module(body=n.body, type_ignores=[])))
+                             for t in walk_local(ast.Module(body=over_region, type_ignores=[])))
             bad = []
             # may-dependencies inside the branch: every assignment to a name (on any path of the branch) contributes
-            branch = ast.Module(body=n.body, type_ignores=[])
+            branch = ast.Module(body=over_region, type_ignores=[])
             defs_in = {}
             for a_ in ast.walk(branch):
                 if isinstance(a_, ast.Assign):
